@@ -115,6 +115,81 @@ def _escaped_then_constant_sub(repo: Repo, f, arg) -> bool:
     return False
 
 
+def _plain_str_stays_unsafe(fn: ast.AST, call: ast.Call) -> bool:
+    """``to_liquid_string(x, False)`` gives a plain, unescaped ``str``.  That is harmless as long as
+    this function never marks it safe or writes it: the value (and the locals it is copied to,
+    also through ``str()``) may be an argument of ``<Markup>.format`` / ``.join`` / ``%`` (which
+    escape plain strings) or of an escape function, may be returned (the output statement escapes
+    it like any other string) — but not be the argument of a Markup constructor or of ``write``."""
+    names: set[str] = set()
+
+    def holds(e: ast.AST) -> bool:
+        return any(x is call or (isinstance(x, ast.Name) and x.id in names) for x in ast.walk(e))
+
+    changed = True
+    while changed:
+        changed = False
+        for st in ast.walk(fn):
+            if isinstance(st, ast.Assign) and len(st.targets) == 1 and isinstance(st.targets[0], ast.Name) and st.targets[0].id not in names and holds(st.value):
+                names.add(st.targets[0].id)
+                changed = True
+    for n in ast.walk(fn):
+        if isinstance(n, ast.Call):
+            direct = list(n.args) + [k.value for k in n.keywords]
+            if isinstance(n.func, ast.Name) and n.func.id in MARKUP_CTORS and any(holds(a) for a in direct):
+                return False
+            if callee_name(n) == "write" and any(holds(a) for a in direct):
+                return False
+    return True
+
+
+def _canonical_stringify(repo: Repo, f0):
+    """``to_liquid_string`` in the form the C05-ESCAPE rules read: private helpers inlined (a
+    ``_stringify(val, autoescape)`` with early returns becomes the if/elif chain again), the
+    result variable merged into the value parameter when the function builds its result in a
+    separate local (``rv = ...; return rv``), and the two parameters named ``val`` / ``autoescape``."""
+    import copy as _cp
+
+    from ..normalize import NFunc, nfunc
+
+    f = nfunc(repo, f0)
+    node = _cp.deepcopy(f.node)
+    ps = [a.arg for a in node.args.args]
+    if len(ps) < 2:
+        return f
+    p_val, p_auto = ps[0], ps[1]
+    rets = [r for r in walk_no_nested(node) if isinstance(r, ast.Return)]
+    if len(rets) == 1 and isinstance(rets[0].value, ast.Name) and rets[0].value.id != p_val:
+        r_name = rets[0].value.id
+        # sound when the parameter is not read again once the result variable has been escaped /
+        # asserted / returned: after the statement that first assigns the result only the result
+        # is used at top level
+        first = next((i for i, st in enumerate(node.body) if any(isinstance(x, ast.Name) and x.id == r_name and isinstance(x.ctx, ast.Store) for x in ast.walk(st))), None)
+        later_reads = first is not None and any(isinstance(x, ast.Name) and x.id == p_val for st in node.body[first + 1 :] for x in ast.walk(st))
+        if first is not None and not later_reads:
+            for x in ast.walk(node):
+                if isinstance(x, ast.Name) and x.id == r_name:
+                    x.id = p_val
+    ren = {p_val: "val", p_auto: "autoescape"}
+    used = {x.id for x in ast.walk(node) if isinstance(x, ast.Name)} | set(ps)
+    for old_, new_ in ren.items():
+        if old_ != new_ and new_ not in used:
+            for x in ast.walk(node):
+                if isinstance(x, ast.Name) and x.id == old_:
+                    x.id = new_
+                elif isinstance(x, ast.arg) and x.arg == old_:
+                    x.arg = new_
+    # `val = val` (the pass-through branch once the result variable is merged) is `pass`
+    for n in ast.walk(node):
+        for fld in ("body", "orelse"):
+            blk = getattr(n, fld, None)
+            if isinstance(blk, list):
+                for i, st in enumerate(blk):
+                    if isinstance(st, ast.Assign) and len(st.targets) == 1 and isinstance(st.targets[0], ast.Name) and isinstance(st.value, ast.Name) and st.value.id == st.targets[0].id:
+                        blk[i] = ast.copy_location(ast.Pass(), st)
+    return NFunc(f0, node)
+
+
 def run(repo: Repo) -> Result:
     res = Result(PID)
     res.rules = ["C05-SINK", "C05-ESCAPE", "C05-MARKUP", "C05-LITERAL", "C05-REG", "C05-FLAG"]
@@ -229,7 +304,7 @@ def run(repo: Repo) -> Result:
         res.add("C05-SINK", fm.qual, "format", "TranslateNode._format_message must interpolate to_liquid_string(..., autoescape=context.env.autoescape) values into the Markup message with %", fm.file, fm.line)
 
     # ---- C05-ESCAPE --------------------------------------------------------------
-    tls = repo.func("liquid.stringify.to_liquid_string")
+    tls = _canonical_stringify(repo, repo.func("liquid.stringify.to_liquid_string"))
     res.ob(tls.qual, 3)
     state = {"rets": []}
 
@@ -359,6 +434,14 @@ def run(repo: Repo) -> Result:
                 seen.add(key)
                 res.ob(f"markup:{key}")
                 row = REVIEWED_MARKUP.get(key)
+                if row is None:
+                    # Markup(<string constant>) — written in place, through a local bound once, or a
+                    # module constant: no render data in it
+                    a0 = arg
+                    if isinstance(a0, ast.Name) and a0.id in f.module.assigns:
+                        a0 = f.module.assigns[a0.id]
+                    if isinstance(a0, ast.Constant) and isinstance(a0.value, str):
+                        row = ("constant", "a string constant holds no render data")
                 if row is None and _escaped_then_constant_sub(repo, f, arg):
                     row = ("escaped-then-constant-sub", "the value is HTML-escaped in place and only a constant replacement is substituted into it")
                 if row is not None:
@@ -545,7 +628,7 @@ def run(repo: Repo) -> Result:
                 res.ob(f"flag:{f.qual}")
                 flag = c.args[1] if len(c.args) > 1 else next((k.value for k in c.keywords if k.arg == "autoescape"), None)
                 ft = text(flag) if flag is not None else None
-                plain_false = isinstance(flag, ast.Constant) and flag.value is False and not any(isinstance(n, ast.Call) and ((isinstance(n.func, ast.Name) and n.func.id in MARKUP_CTORS) or callee_name(n) == "write") for n in ast.walk(f.node))
+                plain_false = isinstance(flag, ast.Constant) and flag.value is False and _plain_str_stays_unsafe(f.node, c)
                 if plain_false:
                     # stringified WITHOUT escaping into a plain str that this function neither marks
                     # safe nor writes: the output statement escapes the result like any other string
